@@ -35,7 +35,7 @@ impl Exec for TypeFilter {
         let iterator = self.iterator.exec(interpreter)?;
         let mut interpreter = interpreter.create_layer();
         interpreter.insert("iterator".into(), iterator);
-        let default_value = Variable::of_type(&self.var_type).unwrap();
+        let default_value = Variable::of_type(&self.var_type).unwrap_or(Variable::Void);
         interpreter.insert("default".into(), default_value);
         Ok(Code::parse(
             &interpreter,
